@@ -55,3 +55,31 @@ def lib_rebuild(d):
     if "witnesses" in d:
         kw["script_witnesses"] = [bits.script.script(list(st), witness=True) for st in d["witnesses"]]
     return btx.tx(txins, txouts, version=d["version"], locktime=d["locktime"], **kw)
+
+
+def textual_txs():
+    """well-formed LEGACY transactions every byte of which is an ASCII hex digit or ASCII whitespace (counts and lengths are
+    TAB/LF/VT/FF/CR/SPACE = 9,10,11,12,13,32) - both parities of the digit count.  A parser that sniffs "is this hex text?"
+    misreads exactly these."""
+    out = []
+    dig = b"0123456789abcdefABCDEF"
+    for variant in range(4):
+        def d(n, k):
+            return bytes(dig[(i * 7 + k + variant) % len(dig)] for i in range(n))
+        n_in = [9, 10, 13, 32][variant]
+        n_out = [10, 9, 32, 11][variant]
+        # variants 0,1: every script length even, so every run of digits between two whitespace bytes has even length
+        # (a hex-text reading needs the two nibbles of a byte adjacent); variants 2,3: odd lengths mixed in
+        sl = [32, 10, 12, 10] if variant < 2 else [32, 9, 12, 10]
+        pl = [12, 10, 32, 12] if variant < 2 else [12, 13, 32, 11]
+        ins = [(d(32, i), int.from_bytes(d(4, i + 1), "little"), d(sl[(i + variant) % 4], i + 2), d(4, i + 3)) for i in range(n_in)]
+        outs = [(int.from_bytes(d(8, j + 5), "little"), d(pl[(j + variant) % 4], j + 6)) for j in range(n_out)]
+        for spk_extra in (0, 1):
+            o = list(outs)
+            if spk_extra:
+                o[0] = (o[0][0], d({12: 10, 10: 12, 32: 12, 13: 12, 11: 12}[len(o[0][1])] if variant < 2 else (13 if len(o[0][1]) == 12 else 12), 99))
+            T = Tx(int.from_bytes(d(4, 40), "little"), ins, o, int.from_bytes(d(4, 41), "little"))
+            raw = T.ser()
+            assert all(c in b"0123456789abcdefABCDEF \t\n\x0b\x0c\r" for c in raw)
+            out.append(T)
+    return out
